@@ -5,6 +5,11 @@ class C04(OperatorCheck):
     id = "C04"
     b1_full_q2 = False
     cfgs = ("lex-rc2", "lex-z3")
+    b3 = {
+        "quick": [("L3", 4, 1, ("T21", 0))],
+        "thorough": [("L3", 4, 2, (2, 2)), ("L3T", 4, 1, ("T21", 0)), ("L3PLUS", 3, 1, ("T21", 0)), ("L3MIX", 3, 1, ("T21", 0)),
+                     ("L3", 5, 1, ("T21", 0), 2)],
+    }
     rule = ("E-in: named scopes of C01 (quick: B1 x 89 semantic-class queries instead of all 264 syntactic ones), both back-ends; oracle: comparison of the lexicographically least "
             "per-layer falsification count vectors by brute force over worlds. The type-level query family "
             "(|V|<=2,|F|<=1 and |V|=1,|F|=2 world types per base) reaches ties between several minimum-cardinality "
